@@ -625,15 +625,6 @@ theorem treach_steps : ∀ (s : Shape), e2sFull s = true → ∀ (cs : List Call
       have hc := treachL_step ss hn' inner e c h
       cases c with
       | progress => rw [show tevs [Call.progress] = [] from rfl, List.append_nil]; exact h
-      | startTestRun =>
-        simp only [step]
-        have a1 := treachL_step ss hn' inner e (.setFailfast false) h
-        have a2 := treachL_step ss hn' _ _ (.setFailfast ((failfastL ss inner).headD false)) a1
-        have a3 := treachL_restore ss hn' _ _ (failfastL ss inner) a2
-        have a4 := treachL_step ss hn' _ _ .startTestRun a3
-        rw [show ∀ b, tevs [Call.setFailfast b] = [] from fun _ => rfl, List.append_nil] at a4
-        rw [show ∀ b, tevs [Call.setFailfast b] = [] from fun _ => rfl, List.append_nil] at a4
-        exact a4
       | _ => exact hc)
   | .e2s ch, hn => tlift _ (fun st e c h => by
       obtain ⟨own, inner⟩ := st
@@ -660,15 +651,6 @@ theorem treachL_step : ∀ (ss : List Shape), e2sFullL ss = true → ∀ (st : S
       simp only [e2sFullL, Bool.and_eq_true] at hn
       simp only [TReachL, stepL] at h ⊢
       exact ⟨by simpa using treach_steps s hn.1 [c] x e h.1, treachL_step ss hn.2 xs e c h.2⟩
-theorem treachL_restore : ∀ (ss : List Shape), e2sFullL ss = true → ∀ (st : StL ss) (e : List TEv) (saved : List Bool),
-    TReachL ss st e → TReachL ss (restoreL ss st saved) e
-  | [], _, _, _, _, _ => by simp [TReachL]
-  | s :: ss, hn, (x, xs), e, saved, h => by
-      simp only [e2sFullL, Bool.and_eq_true] at hn
-      simp only [TReachL, restoreL] at h ⊢
-      have := treach_steps s hn.1 [.setFailfast (saved.headD false)] x e h.1
-      rw [show ∀ b, tevs [Call.setFailfast b] = [] from fun _ => rfl, List.append_nil] at this
-      exact ⟨this, treachL_restore ss hn.2 xs e _ h.2⟩
 end
 
 mutual
@@ -686,14 +668,8 @@ theorem treach_init : ∀ (s : Shape), e2sFull s = true → TReach s (init s) []
   | .tagger _ _ ch, hn => by
       simp only [TReach, init]; exact treach_init ch (by simpa [e2sFull] using hn)
   | .multi ss, hn => by
-      have hn' : e2sFullL ss = true := by simpa [e2sFull] using hn
       simp only [TReach, init]
-      have a0 := treachL_init ss hn'
-      have a1 := treachL_step ss hn' _ _ (.setFailfast false) a0
-      have a2 := treachL_step ss hn' _ _ (.setFailfast false) a1
-      have a3 := treachL_step ss hn' _ _ (.setFailfast false) a2
-      have a4 := treachL_restore ss hn' _ _ (failfastL ss (initL ss)) a3
-      exact a4
+      exact treachL_init ss (by simpa [e2sFull] using hn)
   | .e2s ch, hn => by
       simp only [TReach, init]
       exact ⟨rfl, rfl, treach_init ch (by simp only [e2sFull, Bool.and_eq_true] at hn; exact hn.2)⟩
